@@ -84,6 +84,15 @@ inline void absorb(vh::Out &out, const Job &j, int status) {
   unlink(j.file.c_str());
   unlink((j.file + ".err").c_str());
   bool done = !lines.empty() && lines.back() == "D";
+  // a ThreadSanitizer report of the child is a failure of the case (data race), also when the child went on
+  for (size_t i = 0; i < errs.size(); ++i)
+    if (errs[i].find("WARNING: ThreadSanitizer") != std::string::npos) {
+      std::string rep;
+      for (size_t k = i; k < errs.size() && k < i + 14; ++k) rep += errs[k] + "|";
+      out.fail(j.id, rep.substr(0, 1500), "");
+      out.count("tsan_reports");
+      break;
+    }
   for (const std::string &l : lines) {
     if (l.empty()) continue;
     std::string body = l.size() > 2 ? l.substr(2) : "";
